@@ -33,7 +33,7 @@ EXTRA = gen.CTX_DEFAULT
 
 
 def plan(tier, seed):
-    specs = [{"kind": "directed"}]
+    specs = [{"kind": "directed"}, {"kind": "concurrent-compile", "rounds": 4 if tier == "quick" else 40}]
     n = 11 if tier == "quick" else 45
     per = 2000 if tier == "quick" else 30000
     for i in range(n):
@@ -186,9 +186,98 @@ def gen_case(r, kind):
     return Renderer(r, blanks=r.choice([0, 0.3]), alias=r.random() < 0.5).compound(comp), [doc]
 
 
+def nested_filter(depth, r):
+    inner = "@.v == %d" % r.randint(0, 3)
+    for i in range(depth):
+        k = r.random()
+        inner = ("@.%s[?%s]" % (r.choice("abc"), inner)) if k < 0.6 else (("(%s)" % inner) if k < 0.8 else ("!(%s) || @.a" % inner))
+    return "$[?%s]" % inner
+
+
+def reentrant_env():
+    """An environment with a function extension whose compile-time `validate` hook compiles its string argument with
+    the same environment: a compile inside a compile."""
+    import jsonpath
+    from jsonpath.filter import StringLiteral
+
+    env = jsonpath.JSONPathEnvironment()
+
+    class Sub:
+        def __call__(self, v, q):
+            return len(env.findall(q, v)) if isinstance(v, (dict, list)) else 0
+
+        def validate(self, _env, args, token):
+            for a in args:
+                if isinstance(a, StringLiteral):
+                    _env.compile(a.value)
+            return args
+    env.function_extensions["sub"] = Sub()
+    return env
+
+
+def run_concurrent(ctx, rounds, fixed=None):
+    """Compile -> str -> compile from 8 threads at once on ONE environment (yields injected inside the lexer and
+    parser), and re-entrantly from a validate hook; every outcome against the same text compiled alone."""
+    import jsonpath
+
+    from rt.threads import stress
+
+    r = ctx.rng
+    envs = [("default environment", jsonpath.DEFAULT_ENV), ("re-entrant environment", reentrant_env())]
+    for _round in range(rounds):
+        texts = [nested_filter(r.randint(3, 45), r) for _ in range(10)] + [gen_case(r, r.choice(["std", "ext"]))[0] for _ in range(10)]
+        name, env = envs[_round % 2]
+        if name.startswith("re-entrant"):
+            texts = ["$[?sub(@, %s) >= 0]" % Renderer(r, plain=True).string(t, "'") for t in texts[:10]] + texts[10:]
+        if fixed:
+            texts = fixed[0]
+            name, env = [e for e in envs if e[0] == fixed[1]][0]
+
+        def alone(t):
+            c = impl.call(env.compile, t)
+            if not c.ok:
+                return ("raise", type(c.exc).__name__)
+            s1 = impl.call(str, c.value)
+            if not s1.ok:
+                return ("str-raise", type(s1.exc).__name__)
+            c2 = impl.call(env.compile, s1.value)
+            return ("ok", s1.value, str(c2.value) if c2.ok else "recompile: " + type(c2.exc).__name__)
+        ref = {t: alone(t) for t in texts}
+        for t, v in ref.items():
+            ctx.evaluation()
+            if v[0] == "ok" and v[2] != v[1]:
+                ctx.violation("string-form-does-not-recompile:%s" % name.split()[0], {"text": t, "docs": [], "class": "concurrent"}, {"text": t, "str": v[1], "again": v[2]})
+                return
+        errors = []
+        done = [0]
+
+        def worker(wid, rr):
+            order = list(texts)
+            rr.shuffle(order)
+            for t in order:
+                got = alone(t)
+                done[0] += 1
+                if got != ref[t]:
+                    errors.append({"text": t, "alone": repr(ref[t])[:300], "concurrently": repr(got)[:300], "thread": wid})
+
+        st = stress(worker, nthreads=8, files=("parse.py", "lex.py", "stream.py", "filter.py", "env.py", "selectors.py", "path.py"), seed=r.random(), prob=0.004)
+        ctx.count("concurrent_compiles", done[0])
+        ctx.count("yields_injected", st["yields"])
+        ctx.count("thread_switches_at_yield_points", st["switches"])
+        ctx.cell("thread_interleaving_signatures", st["signature"])
+        ctx.cell("concurrent_compile_environments", name)
+        for e in errors[:2]:
+            ctx.violation("compile-or-string-form-differs-under-concurrent-compiles:%s" % name.split()[0], {"kind": "concurrent-compile", "texts": texts, "env": name}, e)
+        if errors:
+            return
+
+
 def run(spec, ctx):
     r = ctx.rng
     kind = spec["kind"]
+    if kind == "concurrent-compile":
+        run_concurrent(ctx, spec["rounds"])
+        return
     if kind == "directed":
         A, B, C = "@.a", "@.b == 1", "@.c"
         texts = []
@@ -247,4 +336,7 @@ def finalize(m, tier):
 
 
 def replay(case, ctx):
+    if case.get("kind") == "concurrent-compile":
+        run_concurrent(ctx, 30, fixed=(case["texts"], case["env"]))
+        return
     check_text(ctx, case["text"], case["docs"], case.get("class", "replay"), must_compile=case.get("must_compile", False))
